@@ -46,9 +46,11 @@ CHECKS = {
         level="exploration",
         rule=("scenario = random outstation configuration (tx/rx sizes, decode level, unsolicited on/off, limits) x session state (idle, solicited confirm wait, unsolicited ready, unsolicited confirm wait) "
               "x 1-6 generated requests (8 classes: acceptable, no-reply functions, every unsupported function code, bad header flags, unparsable objects, header rejected for the function at first/middle/last/only position, unexpected objects); "
-              "rules S1-S5 evaluated on every transmitted fragment; distinct = (state, request class incl. function code and position, deferred/now) tuples in which a rule was evaluated"),
+              "rules S1-S5 evaluated on every transmitted fragment; distinct = (state, request class incl. function code and position, deferred/now) tuples in which a rule was evaluated; "
+              "part T (READ selection table): one READ per (group, variation) the library knows (and ten it does not) x {all objects, 8/16-bit range, 8/16-bit count} against a database with three points and events of every type: "
+              "objects of the requested group only (none for groups without a point type), the requested variation (or its promotion), inside the range, within the count, exact selection for default-variation static READs"),
         runs=[dict(check="c12", scale=10, timeout_s=900)],
-        required=["S1_seq_ok", "S3_no_reply_ok", "S4_size_ok", "S4_parse_ok", "S5_error_reported", "unsol_fragments_checked", "unsol_seq_consecutive", "series_continuations", "deferred_reads", "state_sol_confirm_wait_reached", "S2_application_value_ok", "S2_restart_not_supported_ok"],
+        required=["T_read_table_ok", "T_static_selection_exact_ok", "T_no_objects_for_groups_without_points_ok", "S1_seq_ok", "S3_no_reply_ok", "S4_size_ok", "S4_parse_ok", "S5_error_reported", "unsol_fragments_checked", "unsol_seq_consecutive", "series_continuations", "deferred_reads", "state_sol_confirm_wait_reached", "S2_application_value_ok", "S2_restart_not_supported_ok"],
         thorough_scale=25.0,
         abnormal_exit_is_violation=True,
         assumptions=HARNESS_TRUST,
